@@ -2,57 +2,134 @@
 ENTRY = {'coq_dir': 'C12',
  'harness': 'c12',
  'cases': {'quick': 1500, 'thorough': 60000},
- 'consts': ['BACKPRESSURE_BOUNDARY'],
+ 'consts': ['BACKPRESSURE_BOUNDARY', 'C12_TABLE_ITEMS'],
  'nontrivial_min_trace': 40,
- 'rule': 'two streams of seeded cases (plus the stored witnesses) over one notification stream built from the real NotificationHandle / '
-         'NotificationSink / Connection / Substream code between scripted in-memory carriers. (1) SCHEDULER stream (every second case): both '
-         'endpoints send; nothing is spawned: each step is one call or ONE poll of one future (sync send, create+poll / poll / drop a '
+ 'rule': 'three streams of seeded cases (plus the stored witnesses). (1) SCHEDULER stream (first number 9001, a quarter of the cases): one '
+         'notification stream built from the real NotificationHandle / NotificationSink / Connection / Substream code between scripted in-memory '
+         'carriers, both endpoints send; nothing is spawned: each step is one call or ONE poll of one future (sync send through the handle, sync '
+         'send through a clone of the NotificationSink of a chosen stream (current, earlier or not yet existing), create+poll / poll / drop a '
          'send_async future, one poll of a Connection task and one handle poll, each under a cooperative budget of 0..128 operations (or '
-         'unconstrained), protocol opens / shuts down '
-         'a Connection, protocol executes or fails to execute a queued ForceClose, carrier gates, transport kill), 20-140 steps quick, 40-500 '
-         'thorough, chosen while the case runs so that polls and drops hit futures that are really pending; capacities {1,2,16}x{1,2,3,16}x'
-         '{1,4,64}x{1,2,64} (sync, async, handle channel, command channel) and maximum sizes {8,16,64,100,30000,50000} drawn independently per '
-         'endpoint. (2) QUIESCENCE stream: one user action of endpoint A, then all tasks run until nothing is runnable (15-90 actions quick, '
-         '30-400 thorough; bursts up to 5x a capacity, smaller receiver maximum in a third of the cases, stalls, local close of either end, '
-         'kill, reopen). After EVERY step/action the result (send code, future outcome, user event with origin/stream/mode/tag/length) and a '
-         'state dump (tasks alive, free slots of the sync and async queues incl. permits held by waiting senders, free slots of the handle '
-         'channels, frames in the carriers, queued ForceClose commands, close notifications) are compared with the extracted Coq model; the '
-         'queue chosen by each tokio::select! is read back through a cfg(verif) log and given to the model as hints; the extracted oracle '
-         're-checks per-direction FIFO/at-most-once/size/stream-confinement/alternation/one-ForceClose on the implementation trace alone; a '
-         'case is non-trivial when its trace has >= 40 numbers; distinct = distinct (case, trace) pairs',
- 'trusted_base': ['tokio mpsc / batch-semaphore / PollSender / coop internals are exercised through the real crate; the model describes them at '
-                  'the level of permits (FIFO hand-over, release on drop, one reserved slot, budget = number of receives per poll) and the '
-                  'per-step diff of free-permit counts is what ties the two',
-                  'the harness plays the part of NotificationProtocol when it wires a stream (the cfg(verif) constructor transcribes the '
-                  'Validating->Open arm of on_handshake_event); executing ForceClose = killing both carriers',
-                  "the byte carrier is the harness's own AsyncRead/AsyncWrite pipe (accepts whole writes while its gate is open); yamux "
-                  'windowing and partial writes belong to C04',
-                  'payloads are >= 4 bytes (origin, mode, stream and tag are encoded in the first four bytes)',
-                  "in the quiescence stream notifications larger than the SENDER's maximum are generated only in single-mode cases (a pop "
-                  'refused before the next flush is invisible on the carrier); the scheduler stream reads the select! log and has no such limit'],
- 'level_text': 'Proof, for EVERY list of scheduler steps (any interleaving of both users, both handles, both Connection tasks, the protocols and '
-               'the carriers; no fairness or quiescence assumed), every configuration and every merge order, in both directions at once: per '
-               'stream and per sending mode the notifications delivered to the peer form a prefix of those accepted, also together with what '
-               'is still in flight (C12_per_mode_fifo, C12_pending_prefix); while the transport is up and both Connections run nothing '
-               'accepted is lost (C12_no_loss_while_open); a send of one endpoint leaves the reverse direction untouched; delivered streams '
+         'unconstrained), protocol opens / shuts down a Connection, protocol executes or fails to execute a queued ForceClose, carrier gates, '
+         'transport kill), 20-140 steps quick, 40-500 thorough, chosen while the case runs so that polls and drops hit futures that are really '
+         'pending; capacities {1,2,16}x{1,2,3,16}x{1,4,64}x{1,2,64} (sync, async, handle channel, command channel) and maximum sizes '
+         '{8,16,64,100,30000,50000} drawn independently per endpoint. (2) QUIESCENCE stream (half of the cases): one user action of endpoint A, then '
+         'all tasks run until nothing is runnable (15-90 actions quick, 30-400 thorough; bursts up to 5x a capacity, smaller receiver maximum in a '
+         'third of the cases, stalls, local close of either end, kill, reopen). (3) START stream (first number 9002, a quarter of the cases): the '
+         'real NotificationProtocol (real TransportService, HandshakeService, Connection tasks collected from the executor, NotificationHandle) of '
+         'ONE endpoint with two remote peers played by scripted substreams; one operation = one injected transport event (connection established / '
+         'closed, inbound substream, answer or failure of an open_substream request), one write of the remote on a carrier (a frame with a fresh '
+         'tag: its handshake, then its notifications; EOF; write errors; flush completes; close of the substream pending / completes), ONE poll of '
+         "next_event (the visiting order of the handshake service's HashMap is read from the implementation and given to the model), a user call "
+         '(open_substream, close_substream, send_validation_result, send_sync_notification, drop of the handle), one poll of every Connection task, '
+         'or ONE handle.next(); nothing is settled in between (several things happen between two polls); 20-140 operations quick, 30-260 thorough, '
+         'chosen while the case runs (steps that move a stream forward with probability 35-85 %, else noise: slow closes, stale carriers, '
+         'reconnects, rejected validations, the inbound-result-queued-and-outbound-fails pattern of F-C12b). After EVERY step/action/operation the '
+         'result and a state dump are compared with the extracted Coq model (streams 1/2: send code, future outcome, user event with '
+         'origin/stream/mode/tag/length; tasks alive, free slots of both queues incl. permits held by waiting senders, free slots of the handle '
+         'channels, frames in the carriers, queued ForceClose commands, close notifications; stream 3: poll outcome, user event with '
+         'peer/handshake/tag, PeerState of both peers, membership in the handshake service, its size (map + ready), tasks spawned/alive, '
+         'pending_outbound, queued user events, service calls, and per carrier: unread frames, dropped, every frame written); the queue chosen by '
+         'each tokio::select! of a Connection is read back through a cfg(verif) log and given to the model as hints; the extracted oracles re-check '
+         'the property on the implementation trace alone (streams 1/2: per-direction '
+         'FIFO/at-most-once/size/stream-confinement/alternation/one-ForceClose, sink-level sends accepted only for the live stream and refused only '
+         'when full or ended; stream 3: every delivered notification is the NEXT frame AFTER the first one of an inbound substream of that peer, the '
+         'handshake offered for validation / reported with Opened is the FIRST frame of a substream of that peer that was alive when the event was '
+         'queued, at most once, and what the local side wrote on a carrier is its handshake first and once, then the notifications the user sent to '
+         'that peer in sending order); a case is non-trivial when its trace has >= 40 numbers; distinct = distinct (case, trace) pairs',
+ 'trusted_base': ['tokio mpsc / batch-semaphore / PollSender / coop internals are exercised through the real crate; the model describes them at the '
+                  'level of permits (FIFO hand-over, release on drop, one reserved slot, budget = number of receives per poll) and the per-step diff '
+                  'of free-permit counts is what ties the two',
+                  'streams 1/2: the harness plays the part of NotificationProtocol when it wires a stream (the cfg(verif) constructor '
+                  'ProtocolSide::open transcribes the Validating->Open arm of on_handshake_event; executing ForceClose = killing both carriers) and '
+                  'starts with empty carriers; that this is what the real protocol hands over is no longer trusted: stream 3 drives the real '
+                  'NotificationProtocol + HandshakeService and C12_start_inbound_clean / C12_start_outbound_clean prove it of their model',
+                  "the byte carriers are the harness's own AsyncRead/AsyncWrite objects (streams 1/2: a pipe that accepts whole writes while its "
+                  'gate is open; stream 3: scripted read buffer, write error, flush and shutdown gates); yamux windowing and partial writes belong '
+                  'to C04',
+                  'payloads carry their identity (streams 1/2: origin, mode, stream and tag in the first four bytes, length >= 4; stream 3: a '
+                  'two-byte tag, all tags of a case pairwise distinct)',
+                  "in the quiescence stream notifications larger than the SENDER's maximum are generated only in single-mode cases (a pop refused "
+                  'before the next flush is invisible on the carrier); the scheduler stream reads the select! log and has no such limit',
+                  'stream 3 runs in real time well below the 5 s / 10 s timers of the protocol (they are armed and never fire within a case), uses '
+                  'channel capacities (64 / 4096) no case fills, and generates slow substream closes only for substreams held by Connection tasks (a '
+                  "pending close inside a protocol handler parks the whole event loop: C11's bounded driver covers parked handlers)"],
+ 'level_text': 'Proof, for EVERY list of scheduler steps (any interleaving of both users, both handles, both Connection tasks, the protocols and the '
+               'carriers; no fairness or quiescence assumed), every configuration and every merge order, in both directions at once: per stream and '
+               'per sending mode the notifications delivered to the peer form a prefix of those accepted, also together with what is still in flight '
+               '(C12_per_mode_fifo, C12_pending_prefix, C12_first_delivered_is_first_accepted); while the transport is up and both Connections run '
+               'nothing accepted is lost (C12_no_loss_while_open); a send of one endpoint leaves the reverse direction untouched; delivered streams '
                'never go backwards and a notification is reported only while the handle holds the sink of its own stream (repaired code; the '
-               'original filter is refuted); Opened/Closed alternate; oversize notifications are never delivered; the handle channel never '
-               'exceeds its capacity counting the reserved slot and a Connection without a slot does not read. send_sync is a single step with '
-               'four outcomes, at most one ForceClose per stream, and once the protocol has executed it every later poll of either Connection '
-               'ends it. send_async: completes at once iff a permit is free, else waits; capacity never exceeded counting held permits; no '
-               'permit free while a live sender waits; permits handed over in FIFO order; a dropped future returns its permit. Stage-wise progress: '
-               'a poll of the sending Connection with a writable carrier sends everything parked or queued, a poll of the receiving Connection '
-               'with a free slot moves the head of the carrier to the handle, a handle poll reports the head of its channel. The quiescence '
-               'stream is proved to be a special schedule. The model is tied to connection.rs/handle.rs/substream by a per-step differential '
-               'run with state dumps.',
- 'level_note': 'Trusted: Coq kernel, ExtrOcamlBasic extraction, harness and hooks, tokio channel/semaphore internals below the permit level. '
-               'One scheduler step is one poll of one future: interleavings INSIDE a poll (threads preempted mid-poll on a multi-thread runtime) '
-               'are covered only as far as every shared object is a tokio channel whose operations are atomic. Liveness is limited to '
-               'C12_force_close_closes and the three per-stage progress theorems (no end-to-end eventual-delivery theorem under a fairness '
-               'assumption; wake-ups are not modelled because the schedule is arbitrary). Connection polls are modelled and driven under the cooperative budget of tokio (a poll cut short after k pops of its '
-               'outbound loop, a slot of the handle channel handed over but not yet collected); only close_connection is kept atomic (the '
-               'harness polls a task that has begun to close until it is done, which is one of the real schedules).',
+               'original filter is refuted); Opened/Closed alternate; oversize notifications are never delivered; the handle channel never exceeds '
+               'its capacity counting the reserved slot and a Connection without a slot does not read. send_sync through the handle is a single step '
+               'with four outcomes, through a clone of the sink a single step with three (no handle state touched), at most one ForceClose per '
+               'stream, and once the protocol has executed it every later poll of either Connection ends it. send_async: completes at once iff a '
+               'permit is free, else waits; capacity never exceeded counting held permits; no permit free while a live sender waits; permits handed '
+               'over in FIFO order; a dropped future returns its permit. LIVENESS: stage-wise progress (sender drains, receiver moves the head of '
+               'the carrier, handle reports the head of its channel) composed into eventual delivery under a fair scheduler: from ANY reachable '
+               'state in which the stream is open at both ends and left alone, n >= (notifications under way) rounds that poll both Connections and '
+               'both users deliver everything accepted, in either direction and mode (delivered = accepted), and the stream stays open '
+               '(C12_eventual_delivery, C12_fair_round_progress). THE START OF A STREAM (Start.v: the real peer state machine of '
+               'NotificationProtocol with all handlers a connected peer can reach, HandshakeService with its HashMap order as an input, the '
+               'Connection tasks, the handle; substreams are values that carry who consumed which frame): an invariant over ALL histories of single '
+               "calls and single polls (C12_start_invariant) gives: the handshake service consumed exactly ONE frame of a Connection's inbound "
+               'substream, the first one the remote wrote on THAT substream, and everything after it is handed to the handle in order or still '
+               'unread (C12_start_inbound_clean, C12_start_first_forwarded_is_first_sent); the local handshake is the first and only frame the '
+               'handshake service wrote on each substream (C12_start_outbound_clean); two such endpoints compose (C12_start_end_to_end); the '
+               'handshake offered for validation was read from the substream that will carry the stream; no entry of `ready` outlives its substream '
+               '(C12_start_ready_belongs); the ORIGINAL HandshakeService is refuted on two witnesses (F-C12b, repaired); a Connection that waits for '
+               'its substreams to close over several polls is silent; a dropped NotificationHandle ends the stream at the next needed slot. The '
+               'quiescence stream is proved to be a special schedule. Orders and mappings hard-wired in the models (biased select! and its branch '
+               'order, stages of Connection::poll_next and close_connection, try_send/send, error mapping, forget() sites) are extracted from the '
+               'source on every check (C12_tables_in_sync). Both models are tied to the code by per-step differential runs with state dumps.',
+ 'level_note': 'Trusted: Coq kernel, ExtrOcamlBasic extraction, harness and hooks, tokio channel/semaphore internals below the permit level. One '
+               'scheduler step is one poll of one future: interleavings INSIDE a poll (threads preempted mid-poll on a multi-thread runtime) are '
+               'covered only as far as every shared object is a tokio channel whose operations are atomic. Liveness is proved for the round-robin '
+               'schedule with quiescent users (no sends during the drain) and polls whose budget exceeds what is queued; wake-ups are not modelled '
+               'because the schedule is explicit. Model.v keeps close_connection atomic and has no dropped handle (its harness polls a closing task '
+               'until it is done); both are modelled, diffed on the real protocol and proved silent/terminating in Start.v, whose Connection has no '
+               "backpressure (few small frames; backpressure is Model.v's subject). The two models meet at Connection::new: Start.v proves what the "
+               'substreams hold at that moment, Model.v starts there with empty carriers; the composition is stated (C12_start_end_to_end for two '
+               'Start endpoints) but Model.v and Start.v are not one state machine. In Start.v the 5 s / 10 s timers never fire, dialing is off, and '
+               'a debug_assert!(false) of the Rust code is the outcome `stuck` (never reached in any run). '
+               'NotificationHandle::send_async_notification (the &mut-borrowing wrapper) is covered as the same lookup + the modelled sink-level '
+               'future; try_open/try_close_substream_batch do not affect delivery.',
  'assumptions': ['channel capacities >= 1 (tokio panics on 0)',
-                 'a stream is set up again only after both Connection tasks of the previous one have finished (guaranteed by '
-                 "NotificationProtocol's peer state, C11); each endpoint joins a stream at most once",
-                 'relative order between the two sending modes is not claimed (matches the property text)']}
+                 "a stream is set up again only after both Connection tasks of the previous one have finished (guaranteed by NotificationProtocol's "
+                 'peer state, C11); each endpoint joins a stream at most once',
+                 'relative order between the two sending modes is not claimed (matches the property text)',
+                 'C12_eventual_delivery: `drainable` (stream open at both ends and left alone, sizes within both maxima, both users have seen '
+                 'Opened, poll budget above the queue lengths) and at least as many fair rounds as notifications under way; satisfiable: '
+                 'C12_example_drainable',
+                 'C12_start_end_to_end: the carrier delivers a prefix of what was written, in order (C04)'],
+ 'proof_files': ['Properties', 'StartProperties'],
+ 'clause_map': [["Notifications accepted for sending to a peer through one sending mode are delivered to that peer's user at most once and in "
+                 'sending order',
+                 'C12_per_mode_fifo, C12_pending_prefix, C12_first_delivered_is_first_accepted, C12_directions_independent; at the start of the '
+                 'stream C12_start_inbound_clean, C12_start_outbound_clean, C12_start_first_forwarded_is_first_sent, C12_start_end_to_end, '
+                 'C12_start_invariant, C12_start_validated_handshake, C12_start_ready_belongs (original code: C12_start_stale_ready_refuted, '
+                 'C12_start_stale_ready_sender_refuted; repaired: C12_start_witnesses_repaired)',
+                 'scheduler + quiescence streams (oracle fifo_ok per direction and mode); start stream (oracle: delivered = next frame after the '
+                 'first of an inbound substream; written = handshake first and once, then the sent tags in order); corpus start.case'],
+                ['within one uninterrupted open period none is skipped once a later one has been delivered',
+                 'C12_no_loss_while_open, C12_per_mode_fifo (prefix: no gaps), C12_reserve_before_read, C12_no_read_without_slot; liveness: '
+                 'C12_outbound_progress, C12_inbound_progress, C12_handle_progress, C12_fair_round_progress, C12_eventual_delivery',
+                 'scheduler stream under budgets and gates; quiescence stream bursts; start stream (delivered indices consecutive from 1)'],
+                ['a closed stream delivers a prefix of what was sent',
+                 'C12_per_mode_fifo, C12_pending_prefix, C12_stream_confinement, C12_reopen_order, C12_events_alternate, '
+                 'C12_unrepaired_filter_refuted, C12_force_close_closes, C12_start_closing_is_silent, C12_start_handle_gone_closes',
+                 'close/kill/reopen cycles in all three streams; slow closes and dropped handle in the start stream'],
+                ['The synchronous send never blocks and reports a clogged channel instead',
+                 'C12_sync_nonblocking, C12_sink_sync_nonblocking, C12_clog_once, C12_force_close_closes, C12_tables_in_sync (try_send, Full -> '
+                 'ChannelClogged, Closed -> NoConnection)',
+                 'scheduler stream steps 0 and 12 with capacities 1/2/16 (all outcomes occur), command-channel overflow'],
+                ['the asynchronous send waits for capacity',
+                 'C12_async_send, C12_async_completion, C12_async_capacity, C12_async_waits, C12_async_work_conserving, C12_async_fifo_handover, '
+                 'C12_async_drop_returns_permit, C12_tables_in_sync (send)',
+                 'scheduler stream steps 1-3 (futures created, polled, dropped), permits in the state dump'],
+                ['a notification larger than the configured maximum is never delivered',
+                 'C12_oversize_never_delivered',
+                 'sizes max+1..max+3 on either side in streams 1/2'],
+                ['for all ... configurations and stream close/reopen cycles (quantifier)',
+                 'every theorem quantifies over cfg, hint lists and step lists; C12_quiescence_is_a_schedule; C12_tables_in_sync ties the hard-wired '
+                 'orders',
+                 'capacity/maximum tables of the generators; tools/gen_c12_tables.py']]}
